@@ -451,7 +451,12 @@ def run(props, tier, seed, budget=None):
     n = budget or DEFAULT_BUDGET[tier]
     findings = []; stats = collections.Counter(); distinct = set(); samples = []
     for i in range(n):
-        viol, tags, desc, _ = walk(seed, i, props)
+        try:
+            viol, tags, desc, _ = walk(seed, i, props)
+        except Exception as e:          # an exception escaping the scenario itself: library code failed where the scenario expects none
+            import traceback
+            viol = [(f'{pid} unexpected {type(e).__name__} while exercising the scenario', traceback.format_exc()[-600:]) for pid in sorted(props)]
+            tags, desc, _ = {'scenario-exception'}, {'history': [], 'exception': repr(e)[:200]}, 'exception'
         stats['walks'] += 1; stats['calls'] += len(desc['history'])
         stats['accepted'] += sum(1 for h in desc['history'] if h.endswith('-> ok'))
         distinct.add(hash(tuple(desc['history'])))
